@@ -170,22 +170,33 @@ def extract_blocks(
     # If mixed element, each argument has no sub-elements
     parts = tuple(sorted(set(part for a in arguments if (part := a.part()) is not None)))
     if parts == ():
-        if i is None and j is None:
-            num_sub_elements = arguments[0].ufl_element().num_sub_elements
+
+        def block(pi, pj=None):
+            f = fs.split(form, pi, pj)
+            return None if f.empty() else f
+
+        # The rows are the sub-elements of the argument with the lowest number, the
+        # columns (bilinear forms) those of the other argument; an argument on an
+        # element without sub-elements is a single column.
+        by_number = sorted(arguments, key=lambda a: a.number())
+        num_rows = by_number[0].ufl_element().num_sub_elements
+        if arity == 1:
+            if i is not None:
+                return fs.split(form, i)
             # If form has no sub elements, return the form itself.
-            if num_sub_elements == 0:
+            if num_rows == 0:
                 return form
-            forms = []
-            for pi in range(num_sub_elements):
-                form_i: list[object | None] = []
-                for pj in range(num_sub_elements):
-                    f = fs.split(form, pi, pj)
-                    if f.empty():
-                        form_i.append(None)
-                    else:
-                        form_i.append(f)
-                forms.append(tuple(form_i))
-            return tuple(forms)  # type: ignore[return-value]
+            return tuple(block(pi) for pi in range(num_rows))
+        num_cols = max(by_number[-1].ufl_element().num_sub_elements, 1)
+        if i is None:
+            # If form has no sub elements, return the form itself.
+            if num_rows == 0:
+                return form
+            return tuple(
+                tuple(block(pi, pj) for pj in range(num_cols)) for pi in range(num_rows)
+            )
+        elif j is None:
+            return tuple(block(i, pj) for pj in range(num_cols))
         else:
             return fs.split(form, i, j)
 
